@@ -34,6 +34,9 @@ type instSpec struct {
 	FailK   int    // failed passes before the new version is published
 	FailAs  string // http500 | garbage
 	Backend string
+	// FirstFails (CDP sources): the origin fails from the start, so the very first load attempt of
+	// the location fails and the retries are first loads too
+	FirstFails bool
 }
 
 type setSpec struct {
@@ -45,14 +48,18 @@ type setSpec struct {
 func (s setSpec) String() string {
 	d := fmt.Sprintf("I=%v instances=%d:", s.Interval, len(s.Instances))
 	for _, i := range s.Instances {
-		d += fmt.Sprintf(" [%s %s sig=%s/%s fail^%d(%s) %s]", i.Source, i.Fetch, i.SigMode, i.Signer, i.FailK, i.FailAs, i.Backend)
+		ff := ""
+		if i.FirstFails {
+			ff = " failing-from-the-start"
+		}
+		d += fmt.Sprintf(" [%s %s sig=%s/%s fail^%d(%s)%s %s]", i.Source, i.Fetch, i.SigMode, i.Signer, i.FailK, i.FailAs, ff, i.Backend)
 	}
 	return d
 }
 
 func main() {
 	run := report.New("C15", "exploration")
-	run.Rule("scenario set = 1..4 checker instances in one process (distinct work_dirs, started I/4 apart) with the real update ticker at interval I, each with one location from {crl_urls, crl_files, CDP active, CDP background}, signature mode/signer in {verify/resolvable, verify_log/unknown, none/unknown}, and an outcome history fail^k then a newly published acceptable CRL (k in {0,1,3}, failures = HTTP 500 or garbage); the run lasts 12 I. Oracle (bounded progress): for every URL location every gap between the end of one fetch and the start of the next, and from the last fetch to the end of the run, is <= 3 I + 1 s; the first rejection of the newly listed serial arrives <= 3 I + 1 s after publication; a configured CRL's listed serial is rejected immediately after Provision returns. non-trivial = instance for which >= 3 fetches were observed (URL sources) and the new serial was seen rejected; distinct = set descriptor + instance index")
+	run.Rule("scenario set = 1..4 checker instances in one process (distinct work_dirs, started I/4 apart) with the real update ticker at interval I, each with one location from {crl_urls, crl_files, CDP active, CDP background}, signature mode/signer in {verify/resolvable, verify_log/unknown, none/unknown}, and an outcome history fail^k then a newly published acceptable CRL (k in {0,1,3}, failures = HTTP 500 or garbage; for CDP locations also failing from the start, so that the first load itself fails and is retried); the run lasts 12 I. Oracle (bounded progress): for every URL location every gap between the end of one fetch and the start of the next, and from the last fetch to the end of the run, is <= 3 I + 1 s; the first rejection of the newly listed serial arrives <= 3 I + 1 s after publication; a configured CRL's listed serial is rejected immediately after Provision returns. non-trivial = instance for which >= 3 fetches were observed (URL sources) and the new serial was seen rejected; distinct = set descriptor + instance index")
 	run.Assume("real time with small intervals; bounds are one-sided and generous (3 I + 1 s against a nominal period of I); a lateness probe voids a set whose 5 ms timers fire more than 450 ms late", "slow failure kinds (refused: 2 s of loader retries per pass) are used in single-instance sets only, because all instances share one process-wide refresh mutex")
 	scratch, _ := report.Scratch("C15")
 	sut.QuietStderr(filepath.Join(scratch, "stderr.log"))
@@ -80,6 +87,18 @@ func main() {
 				is := mk(n)
 				is.Source, is.Fetch = srcs[a].s, srcs[a].f
 				is.SigMode, is.Signer = sigs[b].m, sigs[b].s
+				sets = append(sets, setSpec{ID: len(sets), Interval: iv, Instances: []instSpec{is}})
+				n++
+			}
+		}
+		// CDP locations whose first load fails (fail^k from the start), every signature combination
+		for a := 2; a <= 3; a++ {
+			for b := 0; b < len(sigs); b++ {
+				is := mk(n)
+				is.Source, is.Fetch = srcs[a].s, srcs[a].f
+				is.SigMode, is.Signer = sigs[b].m, sigs[b].s
+				is.FirstFails = true
+				is.FailK = []int{1, 3}[(a+b)%2]
 				sets = append(sets, setSpec{ID: len(sets), Interval: iv, Instances: []instSpec{is}})
 				n++
 			}
@@ -198,7 +217,14 @@ func runSet(run *report.Run, s setSpec, scratch string) {
 				b.Delay = slow
 				return b
 			}
+			failing := origin.Garbage()
+			if is.FailAs == "http500" {
+				failing = origin.Status(500, []byte("<html>err</html>"))
+			}
 			w.CRL.Set(st.path, serve(v0))
+			if is.FirstFails {
+				w.CRL.Set(st.path, failing)
+			}
 			switch is.Source {
 			case "crl_urls":
 				opts.CRLUrls = []string{url}
@@ -240,12 +266,7 @@ func runSet(run *report.Run, s setSpec, scratch string) {
 			failAt := 3 * I
 			time.Sleep(time.Until(start.Add(time.Duration(j)*I/4 + failAt)))
 			if is.FailK > 0 {
-				switch is.FailAs {
-				case "http500":
-					w.CRL.Set(st.path, origin.Status(500, []byte("<html>err</html>")))
-				default:
-					w.CRL.Set(st.path, origin.Garbage())
-				}
+				w.CRL.Set(st.path, failing)
 				if st.file != "" {
 					_ = os.WriteFile(st.file, []byte("garbage"), 0644)
 				}
@@ -281,6 +302,9 @@ func runSet(run *report.Run, s setSpec, scratch string) {
 		idesc := fmt.Sprintf("%s | instance %d", desc, j)
 		is := st.spec
 		keyBase := fmt.Sprintf("%s.%s.sig-%s-%s.instances-%d", is.Source, is.Fetch, modeName(is.SigMode), is.Signer, len(s.Instances))
+		if is.FirstFails {
+			keyBase += ".first-load-failed"
+		}
 		rp := &report.Replay{Case: map[string]any{"set": desc, "instance": j, "provision_s": st.provisionT.Seconds(), "publish_s": st.pubT.Seconds(), "first_rejection_s": st.firstRevT.Seconds(), "immediate": st.immediate}}
 		if st.err != "" {
 			run.Violation(keyBase+".provision-failed", idesc+": "+st.err, rp)
